@@ -6301,7 +6301,7 @@ impl RelationalEngine {
             },
 
             Condition::Eq(col, Value::Int(val)) => {
-                let (values, alive_words, _null_words) =
+                let (values, alive_words, null_words) =
                     self.slab().get_int_column(table, col).ok()?;
                 let row_count = values.len();
                 if row_count == 0 {
@@ -6309,13 +6309,14 @@ impl RelationalEngine {
                 }
                 let mut bitmap = vec![0u64; simd::bitmap_words(row_count)];
                 simd::filter_eq_i64(&values, *val, &mut bitmap);
+                Self::apply_null_mask(&mut bitmap, &null_words, false);
                 // AND with alive bitmap to exclude deleted rows
                 Self::apply_alive_mask(&mut bitmap, &alive_words);
                 Some((SelectionVector::from_bitmap(bitmap, row_count), row_count))
             },
 
             Condition::Ne(col, Value::Int(val)) => {
-                let (values, alive_words, _null_words) =
+                let (values, alive_words, null_words) =
                     self.slab().get_int_column(table, col).ok()?;
                 let row_count = values.len();
                 if row_count == 0 {
@@ -6323,12 +6324,13 @@ impl RelationalEngine {
                 }
                 let mut bitmap = vec![0u64; simd::bitmap_words(row_count)];
                 simd::filter_ne_i64(&values, *val, &mut bitmap);
+                Self::apply_null_mask(&mut bitmap, &null_words, true);
                 Self::apply_alive_mask(&mut bitmap, &alive_words);
                 Some((SelectionVector::from_bitmap(bitmap, row_count), row_count))
             },
 
             Condition::Lt(col, Value::Int(val)) => {
-                let (values, alive_words, _null_words) =
+                let (values, alive_words, null_words) =
                     self.slab().get_int_column(table, col).ok()?;
                 let row_count = values.len();
                 if row_count == 0 {
@@ -6336,12 +6338,13 @@ impl RelationalEngine {
                 }
                 let mut bitmap = vec![0u64; simd::bitmap_words(row_count)];
                 simd::filter_lt_i64(&values, *val, &mut bitmap);
+                Self::apply_null_mask(&mut bitmap, &null_words, false);
                 Self::apply_alive_mask(&mut bitmap, &alive_words);
                 Some((SelectionVector::from_bitmap(bitmap, row_count), row_count))
             },
 
             Condition::Le(col, Value::Int(val)) => {
-                let (values, alive_words, _null_words) =
+                let (values, alive_words, null_words) =
                     self.slab().get_int_column(table, col).ok()?;
                 let row_count = values.len();
                 if row_count == 0 {
@@ -6349,12 +6352,13 @@ impl RelationalEngine {
                 }
                 let mut bitmap = vec![0u64; simd::bitmap_words(row_count)];
                 simd::filter_le_i64(&values, *val, &mut bitmap);
+                Self::apply_null_mask(&mut bitmap, &null_words, false);
                 Self::apply_alive_mask(&mut bitmap, &alive_words);
                 Some((SelectionVector::from_bitmap(bitmap, row_count), row_count))
             },
 
             Condition::Gt(col, Value::Int(val)) => {
-                let (values, alive_words, _null_words) =
+                let (values, alive_words, null_words) =
                     self.slab().get_int_column(table, col).ok()?;
                 let row_count = values.len();
                 if row_count == 0 {
@@ -6362,12 +6366,13 @@ impl RelationalEngine {
                 }
                 let mut bitmap = vec![0u64; simd::bitmap_words(row_count)];
                 simd::filter_gt_i64(&values, *val, &mut bitmap);
+                Self::apply_null_mask(&mut bitmap, &null_words, false);
                 Self::apply_alive_mask(&mut bitmap, &alive_words);
                 Some((SelectionVector::from_bitmap(bitmap, row_count), row_count))
             },
 
             Condition::Ge(col, Value::Int(val)) => {
-                let (values, alive_words, _null_words) =
+                let (values, alive_words, null_words) =
                     self.slab().get_int_column(table, col).ok()?;
                 let row_count = values.len();
                 if row_count == 0 {
@@ -6375,12 +6380,13 @@ impl RelationalEngine {
                 }
                 let mut bitmap = vec![0u64; simd::bitmap_words(row_count)];
                 simd::filter_ge_i64(&values, *val, &mut bitmap);
+                Self::apply_null_mask(&mut bitmap, &null_words, false);
                 Self::apply_alive_mask(&mut bitmap, &alive_words);
                 Some((SelectionVector::from_bitmap(bitmap, row_count), row_count))
             },
 
             Condition::Lt(col, Value::Float(val)) => {
-                let (values, alive_words, _null_words) =
+                let (values, alive_words, null_words) =
                     self.slab().get_float_column(table, col).ok()?;
                 let row_count = values.len();
                 if row_count == 0 {
@@ -6388,12 +6394,13 @@ impl RelationalEngine {
                 }
                 let mut bitmap = vec![0u64; simd::bitmap_words(row_count)];
                 simd::filter_lt_f64(&values, *val, &mut bitmap);
+                Self::apply_null_mask(&mut bitmap, &null_words, false);
                 Self::apply_alive_mask(&mut bitmap, &alive_words);
                 Some((SelectionVector::from_bitmap(bitmap, row_count), row_count))
             },
 
             Condition::Gt(col, Value::Float(val)) => {
-                let (values, alive_words, _null_words) =
+                let (values, alive_words, null_words) =
                     self.slab().get_float_column(table, col).ok()?;
                 let row_count = values.len();
                 if row_count == 0 {
@@ -6401,12 +6408,13 @@ impl RelationalEngine {
                 }
                 let mut bitmap = vec![0u64; simd::bitmap_words(row_count)];
                 simd::filter_gt_f64(&values, *val, &mut bitmap);
+                Self::apply_null_mask(&mut bitmap, &null_words, false);
                 Self::apply_alive_mask(&mut bitmap, &alive_words);
                 Some((SelectionVector::from_bitmap(bitmap, row_count), row_count))
             },
 
             Condition::Eq(col, Value::Float(val)) => {
-                let (values, alive_words, _null_words) =
+                let (values, alive_words, null_words) =
                     self.slab().get_float_column(table, col).ok()?;
                 let row_count = values.len();
                 if row_count == 0 {
@@ -6414,6 +6422,7 @@ impl RelationalEngine {
                 }
                 let mut bitmap = vec![0u64; simd::bitmap_words(row_count)];
                 simd::filter_eq_f64(&values, *val, &mut bitmap);
+                Self::apply_null_mask(&mut bitmap, &null_words, false);
                 Self::apply_alive_mask(&mut bitmap, &alive_words);
                 Some((SelectionVector::from_bitmap(bitmap, row_count), row_count))
             },
@@ -6432,6 +6441,19 @@ impl RelationalEngine {
 
             // Unsupported conditions - fall back to legacy path
             _ => None,
+        }
+    }
+
+    /// Apply the column's NULL bitmap: as in `Condition::evaluate`, a NULL cell satisfies `!=`
+    /// and no other comparison, whatever placeholder the slab stores for it.
+    fn apply_null_mask(bitmap: &mut [u64], null_words: &[u64], null_matches: bool) {
+        for (i, word) in bitmap.iter_mut().enumerate() {
+            let nulls = null_words.get(i).copied().unwrap_or(0);
+            if null_matches {
+                *word |= nulls;
+            } else {
+                *word &= !nulls;
+            }
         }
     }
 
